@@ -31,9 +31,9 @@ RULES = [
     (r'\(std::numeric_limits<int32_t>::lowest\)\(\)', 'INT32_MIN', 0, 1), (r'\(std::numeric_limits<int32_t>::max\)\(\)', 'INT32_MAX', 0, 2), (r'static_cast<std::size_t>\(', '(size_t)(', 0, 1),
     (r'\bmillis_in_second\b', '1000', 0, 3), (r'val /= nanos_in_milli;', 'val = VX_DIV_NANO(val);', 0, 1), (r'\bnanos_in_milli\b', '1000000', 0, 2), (r'static_cast<uint64_t>\(', '(uint64_t)(', 0, 8),
 ]
-ASG = '*ec_p, vx_subtype, vx_div_in, vx_div_out, self->nesting_depth_, vx_top, vx_depth, vx_pushes, vx_pops, vx_bufsize, vx_codes, vx_code, vx_code_patched, vx_code_at, vx_patches, vx_patch_at, vx_patch_val, vx_scalars, vx_scalar, vx_scalar_width, vx_flushes, vx_terminators, vx_names, vx_name_index'
-ASG0 = ASG.replace('*ec_p, ', '')
-WF = 'vx_bufsize <= SIZE_MAX / 4 && vx_top.index_ < SIZE_MAX && vx_codes == 0 && vx_patches == 0 && vx_scalars == 0 && vx_flushes == 0 && vx_terminators == 0 && vx_names == 0 && vx_pushes == 0 && vx_pops == 0'
+ASG = '*ec_p, vx_vals, vx_val, vx_validations, vx_other_arms, vx_subtype, vx_div_in, vx_div_out, self->nesting_depth_, vx_top, vx_depth, vx_pushes, vx_pops, vx_bufsize, vx_codes, vx_code, vx_code_patched, vx_code_at, vx_patches, vx_patch_at, vx_patch_val, vx_scalars, vx_scalar, vx_scalar_width, vx_flushes, vx_terminators, vx_names, vx_name_index'
+ASG0 = ASG.replace('*ec_p, vx_vals, vx_val, vx_validations, vx_other_arms, ', '')
+WF = 'vx_vals == 0 && vx_validations == 0 && vx_other_arms == 0 && vx_bufsize <= SIZE_MAX / 4 && vx_top.index_ < SIZE_MAX && vx_codes == 0 && vx_patches == 0 && vx_scalars == 0 && vx_flushes == 0 && vx_terminators == 0 && vx_names == 0 && vx_pushes == 0 && vx_pops == 0'
 # representation invariant of an open frame: its four length bytes and (inside a document, after visit_key) the reserved type byte lie inside the buffer
 FRAME = '(vx_depth >= 1 && vx_top.offset_ + 4 <= vx_bufsize && (vx_top.type_ == bson_container_type_document ==> (vx_top.name_offset_ >= vx_top.offset_ + 4 && vx_top.name_offset_ < vx_bufsize)))'
 BEFORE = [
@@ -84,8 +84,29 @@ def BYTES(raw):
             ('ensures', '[C08] a scalar outside any document is refused', '__CPROVER_old(vx_depth) == 0 ==> (*ec_p == bson_errc_expected_bson_document && vx_patches == 0 && vx_codes == 0)'),
             ('ensures', '[C06][C08] binary ::= int32 subtype (byte*): the element gets the type byte 0x05, the int32 in front of the subtype byte is the number of payload bytes (subtype not counted), then the subtype (%s) and the payload' % ('the tag given' if raw else '0x80, user defined'),
              '__CPROVER_old(vx_depth) > 0 ==> (*ec_p == 0 && vx_codes == 1 && vx_code == bson_type_binary_type && vx_patches == 1 && (size_t)vx_patch_val == payload_len && vx_bufsize == vx_patch_at + 4 + 1 + payload_len && vx_subtype == %s)' % ('(uint8_t)raw_tag' if raw else '0x80'))]
-def V(name, anchor, csig, contract, ordinal=0):
-    return FuncSpec(name, E, anchor, count=1, csig=csig, contract=contract, aliases=AL, rules=RULES)
+NOTOP = ('ensures', '[C08] a scalar outside any document is refused', '__CPROVER_old(vx_depth) == 0 ==> (*ec_p == bson_errc_expected_bson_document && vx_scalars == 0 && vx_codes == 0 && vx_vals == 0 && vx_bufsize == __CPROVER_old(vx_bufsize))')
+SCALAR_PRE = [('requires', WF + ' && (vx_depth == 0 || %s)' % FRAME), ('assigns', ASG), NOTOP]
+NULL = SCALAR_PRE + [('ensures', '[C06][C08] null is the element type 0x0A with no payload; a null tagged undefined is the (deprecated) type 0x06, also without payload',
+                      '__CPROVER_old(vx_depth) > 0 ==> (*ec_p == 0 && vx_codes == 1 && vx_code == (tag == semantic_tag_undefined ? 0x06 : 0x0A) && vx_scalars == 0 && vx_vals == 0 && vx_patches == 0)')]
+BOOL = SCALAR_PRE + [('ensures', '[C06][C08] a boolean is the element type 0x08 followed by one byte, 0x01 for true and 0x00 for false',
+                      '__CPROVER_old(vx_depth) > 0 ==> (*ec_p == 0 && vx_codes == 1 && vx_code == 0x08 && vx_vals == 1 && vx_val == (val ? 1 : 0) && vx_scalars == 0 && vx_patches == 0)')]
+DOUBLE = SCALAR_PRE + [('ensures', '[C06][C08] a double is the element type 0x01 followed by its eight IEEE 754 binary64 bytes, little endian, every bit pattern as it is (NaN payloads, -0.0)',
+                        '__CPROVER_old(vx_depth) > 0 ==> (*ec_p == 0 && vx_codes == 1 && vx_code == 0x01 && vx_scalars == 1 && vx_scalar_width == 8 && vx_scalar == vx_bits64(val) && vx_vals == 0 && vx_patches == 0)')]
+PLAIN = '(tag != semantic_tag_float128 && tag != semantic_tag_id && tag != semantic_tag_regex)'
+STRING = [('requires', WF + ' && (vx_depth == 0 || %s) && sv_len < (size_t)INT32_MAX' % FRAME), ('assigns', ASG), NOTOP,
+          ('ensures', '[C06][C08] string ::= int32 (byte*) NUL: the element gets the type byte 0x02 (0x0D JavaScript code for the tag code), the int32 in front of the text is the number of bytes of the text plus one for the NUL, then the text and the NUL',
+           '(__CPROVER_old(vx_depth) > 0 && %s && vx_utf8_ok) ==> (*ec_p == 0 && vx_codes == 1 && vx_code == (tag == semantic_tag_code ? 0x0D : 0x02) && vx_patches == 1 && (size_t)vx_patch_val == sv_len + 1 && vx_terminators == 1 && vx_bufsize == vx_patch_at + 4 + sv_len + 1 && vx_other_arms == 0)' % PLAIN),
+          ('ensures', '[C08] text that is not valid UTF-8 is refused with invalid_utf8_text_string; the text is validated exactly once, before any byte of it is written',
+           '(__CPROVER_old(vx_depth) > 0 && %s) ==> (vx_validations == 1 && (!vx_utf8_ok ==> (*ec_p == bson_errc_invalid_utf8_text_string && vx_patches == 0 && vx_terminators == 0)))' % PLAIN),
+          ('ensures', '[C06] decimal128, object id and regular expression texts take their own arms (not under contract here)', '(__CPROVER_old(vx_depth) > 0 && !%s) ==> (vx_other_arms == 1 && vx_patches == 0)' % PLAIN)]
+STRING_RULES = [
+    (r'(?s)case semantic_tag::float128:\s*\{.*?break;\s*\}\s*case semantic_tag::id:\s*\{.*?break;\s*\}\s*case semantic_tag::regex:\s*\{.*?break;\s*\}',
+     'case semantic_tag_float128: case semantic_tag_id: case semantic_tag_regex: vx_other_arms++; break;', 1),
+    (r'auto sink = unicode_traits::validate\(sv\.data\(\), sv\.size\(\)\);\s*if \(sink\.ec != unicode_traits::unicode_errc\(\)\)', 'vx_validations++; VX_JSONCONS_ASSERT(vx_bufsize == offset + 4); if (!vx_utf8_ok)', 1),
+    (r'for \(auto c : sv\)\s*\{\s*buffer_\.push_back\(c\);\s*\}', 'vx_bufsize += sv_len;', 1),
+]
+def V(name, anchor, csig, contract, ordinal=0, pre=()):
+    return FuncSpec(name, E, anchor, count=1, csig=csig, contract=contract, aliases=AL, rules=list(pre) + RULES)
 SPECS = [
     EnumSpec('bson_errc', 'include/jsoncons_ext/bson/bson_error.hpp'), EnumSpec('bson_container_type', TY), EnumSpec('semantic_tag', 'include/jsoncons/semantic_tag.hpp'),
     CopySpec('bson_types', TY, r'JSONCONS_INLINE_CONSTEXPR uint8_t double_type', r'max_key_type = 0x7f;', include_end=True, rules=[(r'JSONCONS_INLINE_CONSTEXPR uint8_t (\w+) = ([^;]+);', r'enum { bson_type_\1 = \2 };', 15, 30)]),
@@ -99,6 +120,12 @@ SPECS = [
     V('visit_byte_string_tagged', r'visit_byte_string\(const byte_string_view& b,\s*uint64_t raw_tag,\s*const ser_context&,\s*std::error_code& ec\) final', 'void visit_byte_string_tagged(struct bson_encoder* self, size_t payload_len, uint64_t raw_tag, int* ec_p)', BYTES(True)),
     V('visit_int64', r'visit_int64\(int64_t val,\s*semantic_tag tag,\s*const ser_context&,\s*std::error_code& ec\) final', 'void visit_int64(struct bson_encoder* self, int64_t val, uint8_t tag, int* ec_p)', INT(True)),
     V('visit_uint64', r'visit_uint64\(uint64_t val,\s*semantic_tag tag,\s*const ser_context&,\s*std::error_code& ec\) final', 'void visit_uint64(struct bson_encoder* self, uint64_t val, uint8_t tag, int* ec_p)', INT(False)),
+    V('visit_null', r'visit_null\(semantic_tag tag, const ser_context&, std::error_code& ec\) final', 'void visit_null(struct bson_encoder* self, uint8_t tag, int* ec_p)', NULL),
+    V('visit_bool', r'visit_bool\(bool val, semantic_tag, const ser_context&, std::error_code& ec\) final', 'void visit_bool(struct bson_encoder* self, bool val, int* ec_p)', BOOL,
+      pre=[(r'buffer_\.push_back\(0x01\);', 'vx_push_val(0x01);', 1), (r'buffer_\.push_back\(0x00\);', 'vx_push_val(0x00);', 1)]),
+    V('visit_double', r'visit_double\(double val,\s*semantic_tag,\s*const ser_context&,\s*std::error_code& ec\) final', 'void visit_double(struct bson_encoder* self, double val, int* ec_p)', DOUBLE,
+      pre=[(r'binary::native_to_little\(val,\s*std::back_inserter\(buffer_\)\)', 'vx_put_le(vx_bits64(val), 8)', 1)]),
+    V('visit_string', r'visit_string\(const string_view_type& sv, semantic_tag tag, const ser_context&, std::error_code& ec\) final', 'void visit_string(struct bson_encoder* self, size_t sv_len, uint8_t tag, int* ec_p)', STRING, pre=STRING_RULES),
 ]
 BV = ['before_value']
 HARNESSES = [
@@ -110,6 +137,11 @@ HARNESSES = [
     Harness('visit_key', 'h_visit_key', enforce='visit_key', method='LF', props=['C06', 'C08']),
     Harness('visit_byte_string', 'h_visit_byte_string', enforce='visit_byte_string', replace=BV, method='LF', props=['C06', 'C08']),
     Harness('visit_byte_string_tagged', 'h_visit_byte_string_tagged', enforce='visit_byte_string_tagged', replace=BV, method='LF', props=['C06', 'C08']),
+    Harness('visit_null', 'h_visit_null', enforce='visit_null', replace=BV, method='LF', props=['C06', 'C08']),
+    Harness('visit_bool', 'h_visit_bool', enforce='visit_bool', replace=BV, method='LF', props=['C06', 'C08']),
+    Harness('visit_double', 'h_visit_double', enforce='visit_double', replace=BV, method='LF', props=['C06', 'C08'], note='native_to_little<double> copies the object representation (memcpy): modelled as the bit pattern'),
+    Harness('visit_string', 'h_visit_string', enforce='visit_string', replace=BV, method='LF', props=['C06', 'C08'],
+            note='plain and code strings; the decimal128 / object id / regex arms are replaced by one event by an extraction rule and excluded; UTF-8 validation is an event (unit utf8)'),
     Harness('visit_int64_none', 'h_visit_int64_none', enforce='visit_int64', replace=BV, method='LF', props=['C06', 'C08', 'C04'], solver='cadical', timeout=900, note='tag fixed to none (one solver query per tag)'),
     Harness('visit_int64_epoch_second', 'h_visit_int64_epoch_second', enforce='visit_int64', replace=BV, method='LF', props=['C06', 'C08', 'C04'], solver='cadical', timeout=900, note='tag fixed to epoch_second (one solver query per tag)'),
     Harness('visit_int64_epoch_milli', 'h_visit_int64_epoch_milli', enforce='visit_int64', replace=BV, method='LF', props=['C06', 'C08', 'C04'], solver='cadical', timeout=900, note='tag fixed to epoch_milli (one solver query per tag)'),
